@@ -191,6 +191,8 @@ pub fn gen_c19(seed: u64, thorough: bool) {
             let cfg = VoiceCfg { nstream: rng.range(2, 3), stage: rng.below(3), nstate: rng.range(1, 5), max_leaves: 3 };
             load_spec(&VoiceSpec::random(&mut rng, &cfg, &pool), &format!("c19t_{}", std::process::id()))
         };
+        // every fifth tuple: the GV-off contexts are held as a regex-type question (the fallback representation)
+        let base: Voice = if t % 5 == 4 { crate::engine::with_gv_off(&base, &["*-sil+*".to_string(), "*-pau+*".to_string()]) } else { base };
         let k = rng.range(0, 3);
         let mut vs: Vec<Voice> = (0..k).map(|_| base.clone()).collect();
         let mut what = "none";
